@@ -1,12 +1,14 @@
 (* C04 — Staked pool backs validator stake one-for-one. Statements only.
    Proved here: the exact step lemmas (stake moves exactly the amount account -> pool -> record;
-   every other pool movement is a mint/burn/send accounted by C02). The history-level sum
-   invariant pool = sum of stake is checked on the implementation after every op by the oracle
-   of bin/props/apporacles.py (c04) and by correspondence with this model; its Coq proof is
-   not done yet (C04_partial). *)
+   every other pool movement is a mint/burn/send accounted by C02) AND the history-level backing
+   invariant: in every reachable state the pool holds at least the sum of the recorded stake of all
+   validators that are not unstaked, unstaked validators record no stake, no stake is negative
+   (App/PoolProofs.v; premises: distinct module addresses, no transaction signed by the pool's own
+   address). The pool may hold MORE only through tokens sent to its address; exact equality against
+   the implementation is the oracle c04 of bin/props/apporacles.py. *)
 From Coq Require Import List ZArith NArith Bool.
-From PM Require Import Base.Bytes Store.KV Store.MergeProofs Num.IntModel Num.DecModel Num.DecProofs
-  App.Model App.BankProofs App.TxProofs App.KeyProofs App.PosProofs App.Examples.
+From PM Require Import Base.Bytes Store.KV Store.MergeProofs App.QueueProofs Num.IntModel Num.DecModel Num.DecProofs
+  App.Model App.BankProofs App.TxProofs App.KeyProofs App.PosProofs App.IndexProofs App.PoolProofs App.Examples App.Invariants.
 Import ListNotations.
 Local Open Scope Z_scope.
 
@@ -21,6 +23,24 @@ Theorem C04_unstake_payout_conserves s a v s' : bank_ok s -> finish_unstaking s 
 Proof. exact (finish_unstaking_pres s a v s'). Qed.
 Theorem C04_force_unstake_conserves s a v s' : bank_ok s -> force_unstake s a v = Some s' -> bank_ok s'.
 Proof. exact (force_unstake_pres s a v s'). Qed.
+(* every reachable state of every history: the pool backs the recorded stake *)
+Theorem C04_pool_backs_stake_all_histories MA ops s s' :
+  pool_ok MA s -> Forall (op_ok MA) ops -> run ops s = Some s' -> pool_ok MA s'.
+Proof. exact (run_pool MA ops s s'). Qed.
+Theorem C04_pool_backs_stake_step MA s o s' : pool_ok MA s -> op_ok MA o -> step s o = Some s' -> pool_ok MA s'.
+Proof. exact (step_pool MA s o s'). Qed.
+Theorem C04_genesis MA s0 gvals dao s ups : ma s0 = MA -> bank_ok s0 -> vals_ok (vals s0) -> mods_distinct MA ->
+  (forall g, In g gvals -> aget (vals s0) (g_addr g) = None) -> NoDup (map g_addr gvals) ->
+  (forall g, In g gvals -> 0 <= snd g) -> ssum (vals s0) + gsum gvals <= bal s0 (m_pool MA) ->
+  init_chain s0 gvals dao = Some (s, ups) -> pool_ok MA s.
+Proof. exact (init_chain_pool MA s0 gvals dao s ups). Qed.
+(* what the invariant says *)
+Theorem C04_pool_ok_reading MA s : pool_ok MA s ->
+  (ssum (vals s) <= bal s (m_pool MA)) /\ (forall a v, get_val s a = Some v -> 0 <= v_tokens v /\ (v_status v = 0%N -> v_tokens v = 0)).
+Proof. intros (_ & _ & V & _ & L). split; [exact L|]. intros a v E. exact (proj2 V a v E). Qed.
+Example C04_ex_premises : (exists s ups, ex_genesis = Some (s, ups) /\ bank_ok s /\ idx_sound s /\ pool_ok ex_ma s /\ QueueProofs.queue_ok s)
+  /\ Forall (op_ok ex_ma) ex_ops.
+Proof. split; [exact ex_genesis_all_ok|exact ex_ops_signers_ok]. Qed.
 Example C04_ex : match ex_genesis with
   | Some (s, _) => match handle s (MStake [22]%N A2 1500000) with
                    | HOk s' => bal s' POOL = 3500000 /\ bal s' A2 = 1500000 /\ option_map v_tokens (get_val s' A2) = Some 1500000
@@ -28,3 +48,5 @@ Example C04_ex : match ex_genesis with
   | None => False end.
 Proof. vm_compute. repeat split; reflexivity. Qed.
 Print Assumptions C04_stake_exact_partial.
+Print Assumptions C04_pool_backs_stake_all_histories.
+Print Assumptions C04_genesis.
